@@ -1,5 +1,5 @@
 //@unit header
-//@serves C01 C02
+//@serves C01 C02 C16
 use vstd::prelude::*;
 use std::collections::HashMap;
 verus! {
